@@ -30,6 +30,14 @@ CLAIMS = {
          "Decides structural necessary conditions for all four filesystem.File implementations, cross-checked as siblings: Seek arms are offset / cursor+offset / size+offset with no subtraction; a negative target is rejected before the cursor store; Close stores a sentinel that Read and Seek test before any other field access; every addend of Read's returned count and every placement into the caller's buffer depends on both size and cursor (so it cannot exceed what remains by construction of a min/clamp); io.EOF is selected by a size/cursor comparison and the cursor advances by the count's addends. Does not decide which bytes are returned.",
          "Dependence is data flow plus the conditions selecting phi values; a clamp that is present but arithmetically wrong (e.g. off by one) is not seen.",
          "DESIGN.md §4 C10"),
+ "C01": ("typestate over go/ssa CFG with callee summaries (dirty directory => write-back), provenance of released chain heads, never-after on the out-of-space return",
+         "Decides structural necessary conditions of the FAT reference-model property: Remove/Rename-over/O_TRUNC hand the dropped entry's first cluster to a function that marks clusters unused; in all exported FAT FileSystem/File mutators every change of a directory's entry list or of an existing entry's fields is followed on every success path by the write of that same directory; the allocator's out-of-space return precedes any FAT mutation. Does not decide equality of listings/contents with a reference model, name aliasing or cluster arithmetic.",
+         "Path-insensitive; directory identity is by SSA value within a function with one level of helper parameters.",
+         "DESIGN.md §4 C01"),
+ "C08": ("typestate over go/ssa CFG (FAT dirty => WriteFat, link => end-of-chain), SSA value identity of mirrored buffers, store/dominance checks for hooks, encoder/decoder layout agreement",
+         "Decides structural necessary conditions of on-disk FAT soundness: secondary FAT, backup boot sector and backup FSInfo are written from the very same buffer as the primary; every SetCluster is followed by WriteFat() (error propagated) before success; both fat32 constructors install WriteBootSectorFn/AfterWriteFAT and WriteFat invokes the hook; dropped entries' chains are released; allocator links are terminated with EOCMarker() and freed clusters get UnusedMarker(). Geometry formulas (FAT32 maxCluster overrun) and chain well-formedness over histories are not covered.",
+         "Path-insensitive; mirror sites are recognised by 'secondary'/'backup' in the field or accessor the offset derives from.",
+         "DESIGN.md §4 C08"),
 }
 
 NOT_APPLICABLE = {
